@@ -13,6 +13,8 @@ Driver for the RESP model (C20, C21, C22).  One request per line:
   enclegacy <value>                  -> ok <hex>
   spec22   <hex>                     -> ok | viol             S(C22): exactly one frame
   spec21   <class> <peak> <len>      -> ok | viol             S(C21)
+  relay    <chunks>                  -> ok <hex> | ok none    Proxy::forward on the remote node's reads
+  relaylegacy <chunks>               -> same, pinned proxy (single read)
 
   chunks := hex(,hex)*        hex := lowercase hex, `-` = empty
   value  := S<hex>. | E<hex>. | I<int>. | B<hex>. | N. | Z. | A<n>.<value>*n
@@ -128,6 +130,12 @@ def handle (_ : Unit) (line : String) : Unit × String :=
       | _ => ((), "bad-op")
   | ["spec22", h] => match bytesOfHex? h with
       | some b => ((), if specOneFrame b then "ok" else "viol")
+      | none => ((), "bad-op")
+  | ["relay", cs] => match parseChunks? cs with
+      | some l => ((), match relay l with | some b => "ok " ++ hexOrDash b | none => "ok none")
+      | none => ((), "bad-op")
+  | ["relaylegacy", cs] => match parseChunks? cs with
+      | some l => ((), match relayLegacy l with | some b => "ok " ++ hexOrDash b | none => "ok none")
       | none => ((), "bad-op")
   | ["spec21", cls, peak, len] =>
       let c? : Option Nat := match cls with
